@@ -27,6 +27,7 @@ type sessObs struct {
 	loadOK    []bool
 	probeSame bool
 	snapFail  bool
+	raw1      string // the whole text of the first snapshot
 }
 
 type baseline struct {
@@ -95,6 +96,7 @@ func runSession(dir string, n int, b *baseline, forms, probes []string, wild boo
 		return o, nil
 	}
 	var rerr string
+	o.raw1 = a.Snapshot
 	o.Snap1, o.snap1G, rerr = userForms(a.Snapshot, b)
 	if rerr != "" {
 		o.ReadErr = rerr
